@@ -3,8 +3,30 @@ import PSO.Proofs.RaftSafety
 /-! # Facts relating a state to its successors (history monotonicity) -/
 namespace PSO.Raft
 
-/-- What a single step may do to the ghost history and to the indices of every node. -/
+/-- What any step (restarts included) may do to the ghost history and the terms. -/
+structure GhostMono (s s' : State) : Prop where
+  voted : ∀ t v c, s.g.voted t v = some c → s'.g.voted t v = some c
+  tl    : ∀ t, ∃ ys, s'.g.termLog t = s.g.termLog t ++ ys
+  ack   : ∀ t q, s.g.acked t q ≤ s'.g.acked t q
+  ldr   : ∀ t l, s.g.leaderOf t = some l → s'.g.leaderOf t = some l
+  term  : ∀ n, (s.nodes n).term ≤ (s'.nodes n).term
+
+theorem GhostMono.refl (s : State) : GhostMono s s :=
+  ⟨fun _ _ _ h => h, fun _ => ⟨[], by simp⟩, fun _ _ => Nat.le_refl _, fun _ _ h => h, fun _ => Nat.le_refl _⟩
+
+theorem GhostMono.trans {a b c : State} (h1 : GhostMono a b) (h2 : GhostMono b c) : GhostMono a c := by
+  refine ⟨?_, ?_, ?_, ?_, ?_⟩
+  · intro t v c h; exact h2.voted t v c (h1.voted t v c h)
+  · intro t
+    obtain ⟨y1, hy1⟩ := h1.tl t; obtain ⟨y2, hy2⟩ := h2.tl t
+    exact ⟨y1 ++ y2, by rw [hy2, hy1, List.append_assoc]⟩
+  · intro t q; exact Nat.le_trans (h1.ack t q) (h2.ack t q)
+  · intro t l h; exact h2.ldr t l (h1.ldr t l h)
+  · intro n; exact Nat.le_trans (h1.term n) (h2.term n)
+
+/-- What a single step other than a restart may do to the ghost history and to the indices of every node. -/
 structure StepMono (s s' : State) : Prop where
+  voted : ∀ t v c, s.g.voted t v = some c → s'.g.voted t v = some c
   tl    : ∀ t, ∃ ys, s'.g.termLog t = s.g.termLog t ++ ys
   ack   : ∀ t q, s.g.acked t q ≤ s'.g.acked t q
   ldr   : ∀ t l, s.g.leaderOf t = some l → s'.g.leaderOf t = some l
@@ -13,11 +35,12 @@ structure StepMono (s s' : State) : Prop where
   applied : ∀ n, (s.nodes n).applied ≤ (s'.nodes n).applied
 
 theorem StepMono.refl (s : State) : StepMono s s :=
-  ⟨fun _ => ⟨[], by simp⟩, fun _ _ => Nat.le_refl _, fun _ _ h => h, fun _ => Nat.le_refl _,
+  ⟨fun _ _ _ h => h, fun _ => ⟨[], by simp⟩, fun _ _ => Nat.le_refl _, fun _ _ h => h, fun _ => Nat.le_refl _,
    fun _ => Nat.le_refl _, fun _ => Nat.le_refl _⟩
 
 theorem StepMono.trans {a b c : State} (h1 : StepMono a b) (h2 : StepMono b c) : StepMono a c := by
-  refine ⟨?_, ?_, ?_, ?_, ?_, ?_⟩
+  refine ⟨?_, ?_, ?_, ?_, ?_, ?_, ?_⟩
+  · intro t v c h; exact h2.voted t v c (h1.voted t v c h)
   · intro t
     obtain ⟨y1, hy1⟩ := h1.tl t; obtain ⟨y2, hy2⟩ := h2.tl t
     exact ⟨y1 ++ y2, by rw [hy2, hy1, List.append_assoc]⟩
@@ -32,7 +55,7 @@ theorem stepMono_setNode {s : State} {n : Nat} {ns : NodeSt} (msgs : List Msg)
     (ht : (s.nodes n).term ≤ ns.term) (hc : (s.nodes n).commit ≤ ns.commit)
     (ha : (s.nodes n).applied ≤ ns.applied) :
     StepMono s { (setNode s n ns) with msgs := msgs } := by
-  refine ⟨fun _ => ⟨[], by simp⟩, fun _ _ => Nat.le_refl _, fun _ _ h => h, ?_, ?_, ?_⟩ <;>
+  refine ⟨fun _ _ _ h => h, fun _ => ⟨[], by simp⟩, fun _ _ => Nat.le_refl _, fun _ _ h => h, ?_, ?_, ?_⟩ <;>
   · intro k; by_cases hk : k = n
     · subst hk; simpa using (by assumption)
     · simp [setNode, hk]
@@ -67,7 +90,7 @@ theorem stepMono_becomeLeader {N : Nat} {s : State} {n : Nat} {ns : NodeSt} (h :
     (hn : s.nodes n = ns) (hr : ns.role = .candidate) (hmaj : isMajority N ns.votes = true) :
     StepMono s (becomeLeader s n ns) := by
   obtain ⟨htl, hld⟩ := cand_tl_nil h.e h.l hn hr hmaj
-  refine ⟨?_, ?_, ?_, ?_, ?_, ?_⟩
+  refine ⟨fun _ _ _ h => h, ?_, ?_, ?_, ?_, ?_, ?_⟩
   · intro t; simp only [becomeLeader, setNode_g, upd1]
     split
     · rename_i ht; subst ht; rw [htl]; exact ⟨ns.log ++ [⟨ns.term, 0⟩], by simp⟩
@@ -85,9 +108,10 @@ theorem stepMono_becomeLeader {N : Nat} {s : State} {n : Nat} {ns : NodeSt} (h :
     · subst hk; simp [hn]
     · simp [hk]
 
-theorem step_mono {N : Nat} {s s' : State} {a : Action} (h : Inv N s) (hs : step N s a = some s') :
-    StepMono s s' := by
+theorem step_mono {N : Nat} {s s' : State} {a : Action} (h : Inv N s) (hs : step N s a = some s')
+    (hnr : ∀ n c a', a ≠ .restart n c a') : StepMono s s' := by
   cases a with
+  | restart n c a' => exact absurd rfl (hnr n c a')
   | timeout n dsts =>
     simp only [step] at hs
     split at hs
@@ -95,8 +119,15 @@ theorem step_mono {N : Nat} {s s' : State} {a : Action} (h : Inv N s) (hs : step
       have hcore : StepMono s { (setNode s n { (s.nodes n) with term := (s.nodes n).term + 1, votedFor := some n, votes := 1, role := .candidate }) with
           msgs := s.msgs ++ dsts.map (fun d => Msg.reqVote ((s.nodes n).term + 1) n d ((s.nodes n).log.length - 1) (lastTerm (s.nodes n).log)),
           g := { s.g with voted := upd2 s.g.voted ((s.nodes n).term + 1) n (some n) } } := by
-        refine ⟨fun _ => ⟨[], by simp⟩, fun _ _ => Nat.le_refl _, fun _ _ h => h, ?_, ?_, ?_⟩ <;>
-        · intro k; by_cases hk : k = n
+        refine ⟨?_, fun _ => ⟨[], by simp⟩, fun _ _ => Nat.le_refl _, fun _ _ h => h, ?_, ?_, ?_⟩
+        · intro t v c hv
+          show upd2 s.g.voted ((s.nodes n).term + 1) n (some n) t v = some c
+          simp only [upd2]; split
+          · rename_i heq; obtain ⟨rfl, rfl⟩ := heq
+            have := h.e.voted_le _ _ _ hv; omega
+          · exact hv
+        all_goals
+          intro k; by_cases hk : k = n
           · subst hk; simp
           · simp [setNode, hk]
       split at hs
@@ -123,13 +154,30 @@ theorem step_mono {N : Nat} {s s' : State} {a : Action} (h : Inv N s) (hs : step
           · simp; omega
           · exact Nat.le_refl _
         split at hs
-        · injection hs with hs; subst hs
-          refine ⟨fun _ => ⟨[], by simp⟩, fun _ _ => Nat.le_refl _, fun _ _ h => h, ?_, ?_, ?_⟩ <;>
-          · intro k; by_cases hk : k = n
+        · rename_i t cand dst li lt hg hc
+          injection hs with hs; subst hs
+          refine ⟨?_, fun _ => ⟨[], by simp⟩, fun _ _ => Nat.le_refl _, fun _ _ h => h, ?_, ?_, ?_⟩
+          · intro t' v c hv
+            show upd2 s.g.voted t n (some cand) t' v = some c
+            simp only [upd2]; split
+            · rename_i heq; obtain ⟨rfl, rfl⟩ := heq
+              exfalso
+              have hle := h.e.voted_le _ _ _ hv
+              have hcur := h.e.voted_cur v
+              obtain ⟨_, hle2, _, hvf⟩ := hc
+              by_cases hlt : (s.nodes v).term < t'
+              · omega
+              · have hb' : bumpTerm (s.nodes v) t' = s.nodes v := by unfold bumpTerm; rw [if_neg hlt]
+                rw [hb'] at hle2 hvf
+                have : t' = (s.nodes v).term := by omega
+                rw [this, hcur, hvf] at hv; cases hv
+            · exact hv
+          all_goals
+            intro k; by_cases hk : k = n
             · subst hk; simp; try exact hb _
             · simp [setNode, hk]
         · injection hs with hs; subst hs
-          refine ⟨fun _ => ⟨[], by simp⟩, fun _ _ => Nat.le_refl _, fun _ _ h => h, ?_, ?_, ?_⟩ <;>
+          refine ⟨fun _ _ _ h => h, fun _ => ⟨[], by simp⟩, fun _ _ => Nat.le_refl _, fun _ _ h => h, ?_, ?_, ?_⟩ <;>
           · intro k; by_cases hk : k = n
             · subst hk; simp; try exact hb _
             · simp [setNode, hk]
@@ -148,7 +196,7 @@ theorem step_mono {N : Nat} {s s' : State} {a : Action} (h : Inv N s) (hs : step
           have hcore : StepMono s { (setNode s cand { (s.nodes cand) with votes := (s.nodes cand).votes + 1 }) with
               msgs := s.msgs.erase (Msg.vote (s.nodes cand).term voter cand),
               g := { s.g with counted := upd2 s.g.counted (s.nodes cand).term cand (voter :: s.g.counted (s.nodes cand).term cand) } } := by
-            refine ⟨fun _ => ⟨[], by simp⟩, fun _ _ => Nat.le_refl _, fun _ _ h => h, ?_, ?_, ?_⟩ <;>
+            refine ⟨fun _ _ _ h => h, fun _ => ⟨[], by simp⟩, fun _ _ => Nat.le_refl _, fun _ _ h => h, ?_, ?_, ?_⟩ <;>
             · intro k; by_cases hk : k = cand
               · subst hk; simp
               · simp [setNode, hk]
@@ -176,7 +224,7 @@ theorem step_mono {N : Nat} {s s' : State} {a : Action} (h : Inv N s) (hs : step
             exact hcore.trans (stepMono_becomeLeader hinv (by simp [setNode]) hrole hmaj)
           · injection hs with hs; subst hs; exact hcore
         · injection hs with hs; subst hs
-          exact ⟨fun _ => ⟨[], by simp⟩, fun _ _ => Nat.le_refl _, fun _ _ h => h, fun _ => Nat.le_refl _,
+          exact ⟨fun _ _ _ h => h, fun _ => ⟨[], by simp⟩, fun _ _ => Nat.le_refl _, fun _ _ h => h, fun _ => Nat.le_refl _,
             fun _ => Nat.le_refl _, fun _ => Nat.le_refl _⟩
       · cases hs
     · cases hs
@@ -186,7 +234,7 @@ theorem step_mono {N : Nat} {s s' : State} {a : Action} (h : Inv N s) (hs : step
     · rename_i hg
       injection hs with hs; subst hs
       have hll := h.l.ldr_log n hg.2
-      refine ⟨?_, ?_, fun _ _ h => h, ?_, ?_, ?_⟩
+      refine ⟨fun _ _ _ h => h, ?_, ?_, fun _ _ h => h, ?_, ?_, ?_⟩
       · intro t; simp only [setNode_g, upd1]; split
         · rename_i ht; subst ht; rw [← hll]; exact ⟨_, rfl⟩
         · exact ⟨[], by simp⟩
@@ -202,7 +250,7 @@ theorem step_mono {N : Nat} {s s' : State} {a : Action} (h : Inv N s) (hs : step
     simp only [step] at hs
     split at hs
     · injection hs with hs; subst hs
-      exact ⟨fun _ => ⟨[], by simp⟩, fun _ _ => Nat.le_refl _, fun _ _ h => h, fun _ => Nat.le_refl _,
+      exact ⟨fun _ _ _ h => h, fun _ => ⟨[], by simp⟩, fun _ _ => Nat.le_refl _, fun _ _ h => h, fun _ => Nat.le_refl _,
         fun _ => Nat.le_refl _, fun _ => Nat.le_refl _⟩
     · cases hs
   | recvAppend n m =>
@@ -212,13 +260,13 @@ theorem step_mono {N : Nat} {s s' : State} {a : Action} (h : Inv N s) (hs : step
       split at hs
       · split at hs
         · injection hs with hs; subst hs
-          exact ⟨fun _ => ⟨[], by simp⟩, fun _ _ => Nat.le_refl _, fun _ _ h => h, fun _ => Nat.le_refl _,
+          exact ⟨fun _ _ _ h => h, fun _ => ⟨[], by simp⟩, fun _ _ => Nat.le_refl _, fun _ _ h => h, fun _ => Nat.le_refl _,
             fun _ => Nat.le_refl _, fun _ => Nat.le_refl _⟩
         · rename_i hnlt
           have hat : (s.nodes n).term ≤ (adoptTerm (s.nodes n) t).term := by rw [adoptTerm_term hnlt]; omega
           split at hs
           · injection hs with hs; subst hs
-            refine ⟨fun _ => ⟨[], by simp⟩, ?_, fun _ _ h => h, ?_, ?_, ?_⟩
+            refine ⟨fun _ _ _ h => h, fun _ => ⟨[], by simp⟩, ?_, fun _ _ h => h, ?_, ?_, ?_⟩
             · intro t' q; simp only [upd2]; split
               · rename_i hh; obtain ⟨rfl, rfl⟩ := hh; exact Nat.le_max_left _ _
               · exact Nat.le_refl _
@@ -232,7 +280,7 @@ theorem step_mono {N : Nat} {s s' : State} {a : Action} (h : Inv N s) (hs : step
               · subst hk; simp
               · simp [setNode, hk]
           · injection hs with hs; subst hs
-            refine ⟨fun _ => ⟨[], by simp⟩, fun _ _ => Nat.le_refl _, fun _ _ h => h, ?_, ?_, ?_⟩
+            refine ⟨fun _ _ _ h => h, fun _ => ⟨[], by simp⟩, fun _ _ => Nat.le_refl _, fun _ _ h => h, ?_, ?_, ?_⟩
             · intro k; by_cases hk : k = n
               · subst hk; simpa using hat
               · simp [setNode, hk]
@@ -252,7 +300,7 @@ theorem step_mono {N : Nat} {s s' : State} {a : Action} (h : Inv N s) (hs : step
         · injection hs with hs; subst hs
           exact stepMono_setNode _ (Nat.le_refl _) (Nat.le_refl _) (Nat.le_refl _)
         · injection hs with hs; subst hs
-          exact ⟨fun _ => ⟨[], by simp⟩, fun _ _ => Nat.le_refl _, fun _ _ h => h, fun _ => Nat.le_refl _,
+          exact ⟨fun _ _ _ h => h, fun _ => ⟨[], by simp⟩, fun _ _ => Nat.le_refl _, fun _ _ h => h, fun _ => Nat.le_refl _,
             fun _ => Nat.le_refl _, fun _ => Nat.le_refl _⟩
       · cases hs
     · cases hs
@@ -289,7 +337,7 @@ theorem step_mono {N : Nat} {s s' : State} {a : Action} (h : Inv N s) (hs : step
     simp only [step] at hs
     split at hs
     · injection hs with hs; subst hs
-      exact ⟨fun _ => ⟨[], by simp⟩, fun _ _ => Nat.le_refl _, fun _ _ h => h, fun _ => Nat.le_refl _,
+      exact ⟨fun _ _ _ h => h, fun _ => ⟨[], by simp⟩, fun _ _ => Nat.le_refl _, fun _ _ h => h, fun _ => Nat.le_refl _,
         fun _ => Nat.le_refl _, fun _ => Nat.le_refl _⟩
     · cases hs
   | recvSnapshot n m =>
@@ -299,12 +347,12 @@ theorem step_mono {N : Nat} {s s' : State} {a : Action} (h : Inv N s) (hs : step
       split at hs
       · split at hs
         · injection hs with hs; subst hs
-          exact ⟨fun _ => ⟨[], by simp⟩, fun _ _ => Nat.le_refl _, fun _ _ h => h, fun _ => Nat.le_refl _,
+          exact ⟨fun _ _ _ h => h, fun _ => ⟨[], by simp⟩, fun _ _ => Nat.le_refl _, fun _ _ h => h, fun _ => Nat.le_refl _,
             fun _ => Nat.le_refl _, fun _ => Nat.le_refl _⟩
         · rename_i hnlt
           have hat : (s.nodes n).term ≤ (adoptTerm (s.nodes n) t).term := by rw [adoptTerm_term hnlt]; omega
           injection hs with hs; subst hs
-          refine ⟨fun _ => ⟨[], by simp⟩, ?_, fun _ _ h => h, ?_, ?_, ?_⟩
+          refine ⟨fun _ _ _ h => h, fun _ => ⟨[], by simp⟩, ?_, fun _ _ h => h, ?_, ?_, ?_⟩
           · intro t' q; simp only [upd2]; split
             · rename_i hh; obtain ⟨rfl, rfl⟩ := hh; exact Nat.le_max_left _ _
             · exact Nat.le_refl _
@@ -329,7 +377,7 @@ theorem step_mono {N : Nat} {s s' : State} {a : Action} (h : Inv N s) (hs : step
     simp only [step] at hs
     split at hs
     · injection hs with hs; subst hs
-      exact ⟨fun _ => ⟨[], by simp⟩, fun _ _ => Nat.le_refl _, fun _ _ h => h, fun _ => Nat.le_refl _,
+      exact ⟨fun _ _ _ h => h, fun _ => ⟨[], by simp⟩, fun _ _ => Nat.le_refl _, fun _ _ h => h, fun _ => Nat.le_refl _,
         fun _ => Nat.le_refl _, fun _ => Nat.le_refl _⟩
     · cases hs
 
@@ -337,15 +385,47 @@ end PSO.Raft
 
 namespace PSO.Raft
 
-theorem run_mono {N : Nat} {s s' : State} {as : List Action} (h : Inv N s) (hr : run N s as = some s') :
-    StepMono s s' := by
+theorem StepMono.ghost {s s' : State} (h : StepMono s s') : GhostMono s s' :=
+  ⟨h.voted, h.tl, h.ack, h.ldr, h.term⟩
+
+theorem step_ghost_mono {N : Nat} {s s' : State} {a : Action} (h : Inv N s) (hs : step N s a = some s') :
+    GhostMono s s' := by
+  by_cases hr : ∃ n c a', a = .restart n c a'
+  · obtain ⟨n, c, a', rfl⟩ := hr
+    simp only [step] at hs
+    split at hs
+    · injection hs with hs; subst hs
+      refine ⟨fun _ _ _ h => h, fun _ => ⟨[], by simp⟩, fun _ _ => Nat.le_refl _, fun _ _ h => h, ?_⟩
+      intro k; by_cases hk : k = n
+      · subst hk; simp
+      · simp [setNode, hk]
+    · cases hs
+  · exact (step_mono h hs (fun n c a' heq => hr ⟨n, c, a', heq⟩)).ghost
+
+/-- No action of the list is a restart ("nodes keep their memory"). -/
+def NoRestart (as : List Action) : Prop := ∀ a ∈ as, ∀ n c a', a ≠ Action.restart n c a'
+
+theorem run_ghost_mono {N : Nat} {s s' : State} {as : List Action} (h : Inv N s) (hr : run N s as = some s') :
+    GhostMono s s' := by
+  induction as generalizing s with
+  | nil => simp [run] at hr; subst hr; exact GhostMono.refl _
+  | cons a as ih =>
+    simp only [run] at hr
+    split at hr
+    · rename_i s1 hs1
+      exact (step_ghost_mono h hs1).trans (ih (inv_step h hs1) hr)
+    · cases hr
+
+theorem run_mono {N : Nat} {s s' : State} {as : List Action} (h : Inv N s) (hr : run N s as = some s')
+    (hnr : NoRestart as) : StepMono s s' := by
   induction as generalizing s with
   | nil => simp [run] at hr; subst hr; exact StepMono.refl _
   | cons a as ih =>
     simp only [run] at hr
     split at hr
     · rename_i s1 hs1
-      exact (step_mono h hs1).trans (ih (inv_step h hs1) hr)
+      exact (step_mono h hs1 (hnr a List.mem_cons_self)).trans
+        (ih (inv_step h hs1) hr (fun b hb => hnr b (List.mem_cons_of_mem _ hb)))
     · cases hr
 
 theorem reachable_of_run {N : Nat} {s s' : State} {as : List Action} (h : Reachable N s)
@@ -381,7 +461,7 @@ theorem reachable_iff_run {N : Nat} {s : State} : Reachable N s ↔ ∃ as, run 
   · rintro ⟨as, has⟩; exact reachable_of_run Reachable.init has
 
 /-- A committed prefix stays a committed prefix in every later state. -/
-theorem cmt_later {N : Nat} {s s' : State} (hm : StepMono s s') {b : Nat} {P : List Entry}
+theorem cmt_later {N : Nat} {s s' : State} (hm : GhostMono s s') {b : Nat} {P : List Entry}
     (h : Cmt N s b P) : Cmt N s' b P :=
   cmt_mono hm.tl hm.ack (Nat.le_refl _) h
 
